@@ -204,19 +204,27 @@ func runC13Backpressure(c *mon.Case) {
 		}
 	}()
 	var stopSending atomic.Bool
+	var accepted atomic.Int64
 	go func() {
 		for i := 0; !stopSending.Load(); i++ {
 			if p.C.Send(eng.MsgBytes('a', i, 200)) != nil {
 				return
 			}
+			accepted.Add(1)
 			time.Sleep(5 * time.Millisecond)
 		}
 	}()
 	time.Sleep(time.Duration(100+rng.Intn(400)) * time.Millisecond)
 	if resendFirst {
-		// lose the acknowledgements of the last packets, stop the
-		// application, and let the fresh packets drain into the link
+		// lose the acknowledgements of the last packets (at least one
+		// more message is accepted after the peer's packets stopped
+		// arriving, so that the queue is not empty), stop the application,
+		// and let the fresh packets drain into the link
 		p.S2C.SetBlackhole(true, true)
+		a0 := accepted.Load()
+		for w := 0; w < 60 && accepted.Load() < a0+2; w++ {
+			time.Sleep(5 * time.Millisecond)
+		}
 		stopSending.Store(true)
 		time.Sleep(30 * time.Millisecond)
 	}
